@@ -15,7 +15,9 @@ from simkit.rng import Rng
 
 VERIF_DIR = os.path.dirname(os.path.dirname(os.path.abspath(__file__)))
 REPO_SRC = os.environ.get("VERIF_REPO_SRC", "/repo/src")
-RUN_TIMEOUT_S = 30
+# wall-clock guard against a hung run (never part of a run's behaviour); generous: 16 workers on a loaded
+# machine make an ordinary deep run several times slower than it is alone
+RUN_TIMEOUT_S = float(os.environ.get("VERIF_RUN_TIMEOUT_S", 120))
 
 
 class HarnessError(Exception):
@@ -148,7 +150,7 @@ class RunResult:
 
 
 def _alarm(signum, frame):
-    raise HarnessHang("run exceeded %ds" % RUN_TIMEOUT_S)
+    raise HarnessHang("run exceeded its wall-clock guard (%ds by default)" % RUN_TIMEOUT_S)
 
 
 def execute(engine_cls, prop, *, seed=None, cfg=None, ops=None, findings=None, tier="quick", max_steps=None, timeout=True, timeout_s=None) -> RunResult:
@@ -256,6 +258,51 @@ def tree_fingerprint():
     except Exception:
         head = "?"
     return {"repo_head": head, "src_sha1": h.hexdigest()}
+
+
+def isolated(fn, *args):
+    """Run fn(*args) in a forked child and return its (picklable) result.
+
+    Process state is one more thing a run may depend on (module-level caches, mutable default
+    arguments, class attributes of the library under test).  A batch of runs executed in a child forked
+    from a process that has never executed a run starts from the state of a fresh interpreter, so what
+    it does is a function of (code, seed, run indexes) alone and can be replayed."""
+    import pickle
+
+    r, w = os.pipe()
+    pid = os.fork()
+    if pid == 0:
+        code = 0
+        try:
+            os.close(r)
+            try:
+                payload = pickle.dumps(("ok", fn(*args)))
+            except BaseException as e:  # noqa: BLE001 - reported to the parent
+                payload = pickle.dumps(("err", f"{type(e).__name__}: {e}\n{traceback.format_exc()[-1500:]}"))
+            with os.fdopen(w, "wb") as f:
+                f.write(payload)
+        except BaseException:
+            code = 3
+        finally:
+            os._exit(code)
+    os.close(w)
+    with os.fdopen(r, "rb") as f:
+        data = f.read()
+    _, status = os.waitpid(pid, 0)
+    if not data:
+        raise HarnessError(f"isolated child died without an answer (wait status {status})")
+    kind, val = pickle.loads(data)
+    if kind == "err":
+        raise HarnessError("isolated child failed: " + val)
+    return val
+
+
+def execute_with_prelude(engine_cls, prop, prelude, cfg, ops, findings, timeout_s=None):
+    """replay `prelude` (earlier runs of the same process: list of {cfg, ops}) and then one run; the result of
+    the last one is returned"""
+    for pr in prelude or []:
+        execute(engine_cls, prop, cfg=pr["cfg"], ops=pr["ops"], findings=findings, timeout_s=timeout_s)
+    return execute(engine_cls, prop, cfg=cfg, ops=ops, findings=findings, timeout_s=timeout_s)
 
 
 def write_replay(path, engine_name, prop, seed, cfg, ops, violation: Violation, extra=None):
